@@ -149,7 +149,7 @@ def run(tier):
         r = tlc.run(module, cfg="cov", workers=4, cwd=d, coverage=True, timeout=600)
         acts = {}
         for line in r.stdout.splitlines():
-            m = re.match(r"^<(\w+) line \d+, col \d+ to line \d+, col \d+ of module (\w+)>: (\d+):(\d+)", line)
+            m = re.match(r"^<(\w+) line \d+, col \d+ to line \d+, col \d+ of module (\w+)(?: \([\d ]+\))?>: (\d+):(\d+)", line)
             if m:
                 acts[m.group(1)] = max(acts.get(m.group(1), 0), int(m.group(4)))
         never = sorted(a for a, n in acts.items() if n == 0)
